@@ -108,6 +108,7 @@ type Exec struct {
 	Stmts       int64 // Stmt markers passed (any granularity)
 	TraceHash   uint64
 	StateKeys   []uint64 // control-state key (vector of per-thread histories) at every choice point
+	Contended   int      // choice / hand-over points at which some unfinished thread was blocked (lock held, once running)
 	Deadlock    bool
 	Blocked     []string // on deadlock: "T1: lock reader.go:101 ..." per blocked thread
 	Overrun     bool     // step horizon exceeded (livelock guard)
@@ -393,16 +394,23 @@ func (s *sched) choose(t *thread) *thread {
 		m = append(m, t)
 	}
 	var sig uint64 = 7
+	blocked := false
 	for _, u := range s.threads {
 		if u.finished {
 			continue
 		}
 		en := u.pend.enabled()
+		if !en {
+			blocked = true
+		}
 		sig = mix(sig, uint64(u.id)<<8|uint64(u.pend.kind)<<1|b2u(en))
 		sig = mix(sig, strHash(u.pend.site))
 		if u != t && en {
 			m = append(m, u)
 		}
+	}
+	if blocked {
+		s.ex.Contended++
 	}
 	if len(m) == 0 {
 		if !s.allFinished() {
